@@ -30,6 +30,21 @@ Theorem C10_payload_durations : forall a d k e,
   e_fired ev = (if carries_fired k then Some (d_fired d) else None).
 Proof. intros a d k e. destruct (mk_event_payload a d k e) as (_ & _ & _ & _ & _ & H1 & H2). split; assumption. Qed.
 
+(* ---- lifted to whole frames (Proofs/FrameLiftP.v): the evaluation sequence of ContextInstances::update ---- *)
+From BEI Require Import Model.Frame Spec.Events Spec.ReadSpec Proofs.StateP Proofs.ActionP Proofs.InstanceP Proofs.ConsumeP Proofs.RegistryP Proofs.FanoutP Proofs.FrameLiftP.
+Open Scope Q_scope.
+Theorem C10_every_evaluation_of_a_frame : forall tm r c gs,
+  Forall (fun e =>
+    let a := ab_id (er_bind e) in
+    let d := old_data (er_table e) a in
+    exists d', lookup a (o_actions (er_out e)) = Some d' /\
+      (d_state d = SNone -> d_elapsed d' == 0 /\ d_fired d' == 0)%Q /\
+      (d_state d <> SNone -> d_elapsed d' == d_elapsed d + vdelta tm)%Q /\
+      (d_state d = SFired -> d_fired d' == d_fired d + vdelta tm)%Q /\
+      (d_state d <> SFired -> d_fired d' == 0)%Q)
+    (evaluations tm r c gs).
+Proof. exact evaluations_durations. Qed.
+
 Example C10_nonvacuous :
   let h := [(SOngoing, 1#8, VB true); (SFired, 1#4, VB true); (SFired, 1#64, VB true); (SNone, 1#8, VB false)] in
   Forall (fun x => 0 <= snd (fst x)) h /\
@@ -41,3 +56,4 @@ Print Assumptions C10_recurrences.
 Print Assumptions C10_closed_form.
 Print Assumptions C10_bounds.
 Print Assumptions C10_payload_durations.
+Print Assumptions C10_every_evaluation_of_a_frame.
